@@ -190,7 +190,7 @@ def run(ctx):
         n_ = engine.take_over(ctx, c2_.obs, lambda o: (o.rule == "C01.2" and "flush" in o.key) or o.rule == "C01.8", "C06.8", "a response that was printed reaches the wire when the answering call returns: ")
         ctx.floor("C06.8 obligations on the writer's flush", n_, 1)
     except CheckerError as e:
-        ctx.ob("C06.8", "writer-flush", "the turn-taking writer could be evaluated", False, "sequential.rs", str(e))
+        raise CheckerError("C06.8 (the turn-taking writer could not be evaluated): %s" % e)
     return {}
 
 
